@@ -56,11 +56,17 @@ Definition hash_fn (id : Z) (k : Z) : Z :=
 
 Record cfg : Type := mkCfg { c_cap : Z; c_wf0 : bool; c_wfThr : Z; c_probing : Z; c_bound : Z; c_pol : Z; c_logStart : Z; c_hash : Z }.
 Definition max_log : Z := 40.
+Definition c_unlimited (c : cfg) : bool := 2 ^ 62 <=? c_cap c.
 
-Definition hs (c : cfg) : Type := hset BS.
-Definition step_cfg (c : cfg) : hset BS -> op -> hset BS * out :=
-  step BS bs0 (decode_fn (c_bound c)) (upd_fn (c_bound c)) (hash_fn (c_hash c)) (c_cap c) (c_wf0 c) (c_wfThr c) start_fn
+(* the model of one momo configuration, for an ARBITRARY hash function h *)
+Definition step_gen (c : cfg) (h : Z -> Z) : hset BS -> op -> hset BS * out :=
+  step BS bs0 (decode_fn (c_bound c)) (upd_fn (c_bound c)) h (c_cap c) (c_unlimited c) (c_wf0 c) (c_wfThr c) start_fn
        (next_fn (c_probing c)) (c_logStart c) (calc_capacity (c_pol c) (c_cap c)) (shift_fn (c_pol c) (c_cap c)) max_log.
+Definition run_gen (c : cfg) (h : Z -> Z) : hset BS -> list op -> hset BS * list out :=
+  run BS bs0 (decode_fn (c_bound c)) (upd_fn (c_bound c)) h (c_cap c) (c_unlimited c) (c_wf0 c) (c_wfThr c) start_fn
+       (next_fn (c_probing c)) (c_logStart c) (calc_capacity (c_pol c) (c_cap c)) (shift_fn (c_pol c) (c_cap c)) max_log.
+(* what the correspondence stage runs: the same with one of the test hash distributions *)
+Definition step_cfg (c : cfg) : hset BS -> op -> hset BS * out := step_gen c (hash_fn (c_hash c)).
 Definition shape_cfg (c : cfg) : hset BS -> list (Z * list (list Z * bool * Z)) := shape BS (decode_fn (c_bound c)).
 Definition init_cfg : hset BS := hinit BS.
 Definition traverse_cfg : hset BS -> list item := traverse BS.
